@@ -47,32 +47,44 @@
 //!                             nothing for it (`redelivered-in-later-tick`);
 //!  R2 `sent-then-in-flight`   a sent open is `OpenInFlight`, a sent cancel of a tracked order is
 //!                             `CancelInFlight` after the tick;
-//!  R3 `failed-*`              a request reported failed carries an error that is unrecoverable iff the link
-//!                             is closed / absent / out of range, was delivered nowhere, left no mark, and a
+//!  R3 `failed-*`              a request reported failed carries an error that is unrecoverable IF the link
+//!                             is closed / absent / out of range (on an unhealthy or healthy link the class is the
+//!                             engine's choice), was delivered nowhere, left no mark, and a
 //!                             fatal failure makes the tick terminal (the audit carries the error and
 //!                             `Terminal::is_terminal()` - what the run loops stop on - is true);
-//!                             (an open under a cid the engine still tracks may instead be declined: reported
-//!                             with an error, nowhere delivered, no mark - the statement does not say it must be sent);
-//!     `recoverable-failure`   conversely, with every link present (healthy / unhealthy) and only known exchanges
-//!                             named, the audit carries no unrecoverable error (the engine does not stop);
+//!                             (a request may also be declined on a HEALTHY link - second open under a tracked cid,
+//!                             batch limit, validation: reported with an error, nowhere delivered, no mark - the
+//!                             statement does not say it must be sent);
+//!     `recoverable-failure`   consistency: with no link gone and only known exchanges named, the audit carries no
+//!                             unrecoverable error when every link is healthy and nothing failed, nor when every
+//!                             failure the engine reports is - by its own report - recoverable;
 //!  R4 `refused-*`             a request the risk manager refused is reported refused, delivered nowhere, no mark;
 //!  R5 `disabled-*`            while Disabled (and not on the enabling event) nothing the strategy proposed is
-//!                             delivered, marked or reported; commands are still actioned
+//!                             delivered, marked or reported (the event that disables trading counts as disabled
+//!                             unless the strategy was consulted only on a state in which trading was still
+//!                             enabled - `XStrategy::consulted`); commands are still actioned
 //!                             (`command-actioned`) whatever the risk manager would say - a commanded request
 //!                             stays unissued only if it is reported as refused (never delivered, no mark);
 //!                             market/account events update the state exactly as they
 //!                             do when enabled (`disabled-state-still-updates`, differential);
-//!  R6 `enabled-generates`     on `TradingStateUpdate(Enabled)` (that very event) and on every market /
-//!                             account / trading event processed while enabled the strategy's approved
-//!                             requests are issued (healthy link => delivered once, in flight, reported).
+//!  R6 `enabled-generates`     on the event that re-enables trading (that very event) the strategy's approved
+//!                             requests are issued (healthy link => delivered once, in flight, reported / declined
+//!                             with a reported error). On every other market / account / trading event processed
+//!                             while enabled generation is NOT demanded (the statement does not fix on which
+//!                             events an enabled engine consults its strategy), but if it left a trace the same
+//!                             per-request rules apply.
 //!  R7 `frame`                 an order (instrument, cid) addressed by nothing in the tick (event, proposal,
 //!                             command, report, delivery) is unchanged ("... and no other order changed" of
 //!                             the design); the same cid on another instrument is another order.
 //! Signatures name rule + abstract cause only; requests already flagged by the report-driven rules
 //! R1-R4 are skipped by the input-driven rules R5/R6 so that one defect yields one or two signatures.
 //! Not demanded (statement silent, all behaviours accepted): whether generation runs after a command,
-//! after `Shutdown`, on the event that disables trading; whether the audit still carries the algo
-//! output next to a fatal algo error (counted as `audit_dropped_algo_output`).
+//! after `Shutdown`, on a reconnect notice, on any enabled event other than the enabling one; whether the audit
+//! still carries the algo output next to a fatal algo error (counted as `audit_dropped_algo_output`); WHICH
+//! orders / positions `CancelOrders(filter)` / `ClosePositions(filter)` cover (C19) - for those two commands
+//! "still actioned while disabled" is judged differentially against the same command on the same state with
+//! trading enabled (`.../differs-from-enabled-engine`); how a full account snapshot changes the orders of its
+//! exchange (C01).
 
 use super::common::*;
 use crate::core::{Ctx, Outcome};
@@ -198,16 +210,19 @@ pub struct XStrategy {
     opens: Vec<OrderRequestOpen<ExchangeIndex, InstrumentIndex>>,
     /// cancel requests the strategy adds to the market orders that close the positions
     close_cancels: Vec<OrderRequestCancel<ExchangeIndex, InstrumentIndex>>,
+    /// one entry per consultation of `generate_algo_orders`: was trading enabled in the state it was shown?
+    consulted: Arc<std::sync::Mutex<Vec<bool>>>,
 }
 impl AlgoStrategy for XStrategy {
     type State = EState;
     fn generate_algo_orders(
         &self,
-        _: &Self::State,
+        state: &Self::State,
     ) -> (
         impl IntoIterator<Item = OrderRequestCancel<ExchangeIndex, InstrumentIndex>>,
         impl IntoIterator<Item = OrderRequestOpen<ExchangeIndex, InstrumentIndex>>,
     ) {
+        self.consulted.lock().unwrap().push(state.trading == TradingState::Enabled);
         (self.cancels.clone(), self.opens.clone())
     }
 }
@@ -1409,13 +1424,14 @@ fn check_reports(obs: &Obs, rep: &Reports, has_audit: bool, out: &mut Vec<Viol>)
         let n = out.len();
         let k = kind_name(r);
         let lk = link_kind(obs.links, parts(r).1);
-        if lk == LinkKind::Healthy && obs.reopen(r) {
-            // an engine may decline to open a second order under a client order id it still tracks (the
-            // statement does not say such a request has to be sent): reported with an error, nowhere
-            // delivered, no mark - checked below
-        } else if lk == LinkKind::Healthy {
-            out.push(("C03/failed-report/link-was-healthy".into(), format!("{} reported failed although its link is healthy: {r:?}", src.s())));
-        } else if lk.fatal() != *fatal {
+        if lk == LinkKind::Healthy {
+            // an engine may decline to hand a request to a healthy link (a second open under a client order id
+            // it still tracks, a batch limit, a validation, ...): the statement only demands that such a
+            // request is reported with its error, nowhere delivered and leaves no mark - checked below
+        } else if lk.fatal() && !*fatal {
+            // "fatal if the link is gone or the exchange has no link". The converse is NOT demanded: whether a
+            // send failure on a present (unhealthy) link is recoverable is the engine's choice - the statement
+            // does not even quantify over that link state
             out.push((
                 format!("C03/failed-error-class/{}/reported-{}", lk.s(), if *fatal { "fatal" } else { "recoverable" }),
                 format!("request {r:?} failed on {}: error reported as {}", lk.s(), if *fatal { "unrecoverable" } else { "recoverable" }),
@@ -1457,27 +1473,34 @@ fn check_issued(obs: &Obs, rep: &Reports, flagged: &[String], src: Src, r: &Exec
     }
     let k = kind_name(r);
     let lk = link_kind(obs.links, parts(r).1);
-    let (nr, nt) = (obs.n_right(r), obs.n_total(r));
-    // (see `check_reports`: a re-open under a tracked cid may also be declined - reported failed, not delivered, no mark)
-    if lk == LinkKind::Healthy && obs.reopen(r) && nt == 0 && rep.failed.iter().any(|(s, x, _)| *s == src && x == r) && obs.marked(r, rep).is_none() {
+    // The request the engine issues for `r` is identified by kind + exchange + instrument + client order id, not
+    // by field-for-field equality with the input: an engine may complete a request before it sends it (e.g. add
+    // the exchange's order id it knows to a cancel that came without one). That what it REPORTS as sent is what
+    // was delivered is R1's subject (`check_reports`, exact equality).
+    let same = |x: &ExecutionRequest| parts(x) == parts(r);
+    let nr = obs.logs.get(parts(r).1).map(|l| l.iter().filter(|x| same(x)).count()).unwrap_or(0);
+    let nt: usize = obs.logs.iter().map(|l| l.iter().filter(|x| same(x)).count()).sum();
+    let reported_failed = rep.failed.iter().any(|(s, x, _)| *s == src && same(x));
+    // (see `check_reports`: a request may also be declined on a healthy link - reported failed, not delivered, no mark)
+    if lk == LinkKind::Healthy && nt == 0 && reported_failed && obs.marked(r, rep).is_none() {
         return;
     }
     if lk == LinkKind::Healthy {
         // a command and the strategy may issue the identical cancel in one tick: then it is reported
         // (and, by R1, delivered) once per issuer
-        let want = rep.sent.iter().filter(|(_, x)| x == r).count().max(1);
+        let want = rep.sent.iter().filter(|(_, x)| same(x)).count().max(1);
         if nr != want || nt != want {
             out.push((format!("{rule}/not-delivered-once"), format!("{r:?} must be issued on a healthy link: named link holds it {nr}x, all links {nt}x (expected {want}x)")));
         } else if let Some(d) = obs.not_in_flight(r) {
             out.push((format!("{rule}/{k}-not-in-flight"), format!("{r:?} issued but {d}")));
-        } else if output_present && !rep.sent.iter().any(|(s, x)| *s == src && x == r) {
+        } else if output_present && !rep.sent.iter().any(|(s, x)| *s == src && same(x)) {
             out.push((format!("{rule}/not-reported-sent"), format!("{r:?} issued but missing from the reported `sent`")));
         }
     } else if nt > 0 {
         out.push((format!("{rule}/delivered-despite-link-fault"), format!("{r:?} addresses {} but was found in a link log", lk.s())));
     } else if let Some(d) = obs.marked(r, rep) {
         out.push((format!("C03/failed-no-in-flight-mark/{}-{k}", src.s()), format!("{r:?} cannot be delivered ({}), yet {d}", lk.s())));
-    } else if output_present && !rep.failed.iter().any(|(s, x, _)| *s == src && x == r) {
+    } else if output_present && !reported_failed {
         out.push((format!("{rule}/failure-not-reported"), format!("{r:?} cannot be delivered ({}) but is missing from the reported errors", lk.s())));
     }
 }
@@ -1522,7 +1545,15 @@ impl M {
     /// Close the real engine around `pre` with the seams of this tick (scripted or real links), run the job.
     /// Returns (result | Err = the code under test panicked, state after, deliveries per exchange index).
     fn run_job(&self, pre: &EState, a: &Act, job: &Job) -> (Result<Done, ()>, EState, Vec<Vec<ExecutionRequest>>) {
+        let (res, post, logs, _) = self.run_job_consulted(pre, a, job);
+        (res, post, logs)
+    }
+
+    /// `run_job` + the trading state (enabled?) of every state the strategy was consulted on
+    fn run_job_consulted(&self, pre: &EState, a: &Act, job: &Job) -> (Result<Done, ()>, EState, Vec<Vec<ExecutionRequest>>, Vec<bool>) {
         let (strategy, risk) = self.strategy_for(a);
+        let consulted = strategy.consulted.clone();
+        let consulted = move || consulted.lock().unwrap().clone();
         let mode = |i: usize| a.links.get(i).copied().unwrap_or(Some(TxMode::Healthy));
         let exchanges = self.instruments.exchanges();
         if a.real {
@@ -1554,7 +1585,7 @@ impl M {
             let res = exec(&mut engine, job);
             let mut links = LinkSet::Real(rxs);
             let logs = links.logs();
-            (res, engine.state, logs)
+            (res, engine.state, logs, consulted())
         } else {
             let txs: Vec<(ExchangeId, Option<ScriptTx>)> =
                 exchanges.iter().enumerate().map(|(i, ex)| (ex.value, mode(i).map(ScriptTx::new))).collect();
@@ -1563,7 +1594,7 @@ impl M {
             let res = exec(&mut engine, job);
             let mut links = LinkSet::Script(txs.into_iter().map(|(_, t)| t).collect());
             let logs = links.logs();
-            (res, engine.state, logs)
+            (res, engine.state, logs, consulted())
         }
     }
 
@@ -1643,7 +1674,7 @@ impl M {
             bump(&self.cov.bulk_ticks);
         }
         addn(&self.cov.close_positions_cancels, a.close_cancels.len());
-        let (res, post_state, logs) = self.run_job(pre, a, &Job::Process(event.clone()));
+        let (res, post_state, logs, consulted) = self.run_job_consulted(pre, a, &Job::Process(event.clone()));
         let Ok(Done::Audit(audit)) = res else {
             out.push((format!("C03/panic/process-{}", ev_kind(ev)), format!("Engine::process panicked on {ev:?}")));
             return None;
@@ -1668,7 +1699,17 @@ impl M {
                 }
             }
         }
-        let obs = Obs { pre, post, logs, links: &a.links, touched: self.touched(ev) };
+        let mut touched = self.touched(ev);
+        if let Ev::AcctSnapshot(e) = ev {
+            // a full account snapshot speaks about EVERY order of its exchange (an order it does not list is
+            // information too: an engine may reconcile its resting orders against it) - order lifecycle, C01
+            for (i, cid, _) in tracked(pre).into_iter().chain(tracked(post)) {
+                if self.ex_of_ins(i) == *e && !touched.contains(&(i, cid.clone())) {
+                    touched.push((i, cid));
+                }
+            }
+        }
+        let obs = Obs { pre, post, logs, links: &a.links, touched };
         self.count(&rep);
         if matches!(ev, Ev::FillExit(_)) {
             bump(&self.cov.position_exit_ticks);
@@ -1717,6 +1758,11 @@ impl M {
                 if rep.sent.iter().any(|(_, x)| x == d) || issued.contains(d) {
                     continue;
                 }
+                // the market orders of THIS tick's ClosePositions command (cids `close-<instrument>` by
+                // construction of `XStrategy`) are issued in this tick even if the audit does not list them
+                if matches!(ev, Ev::CmdClose(_)) && parts(d).0 && parts(d).3.starts_with("close-") {
+                    continue;
+                }
                 let (is_open, _, ins, cid) = parts(d);
                 let again = match (is_open, order_of(pre, ins, &cid).map(|o| &o.state)) {
                     (true, Some(_)) => true,
@@ -1745,16 +1791,23 @@ impl M {
             named.extend(rep.sent.iter().map(|(_, r)| parts(r).1));
             named.extend(rep.failed.iter().map(|(_, r, _)| parts(r).1));
             named.extend(tracked(pre).iter().map(|t| t.2.key.exchange.index()));
-            if !link_gone && named.iter().all(|e| *e < self.n_ex) {
+            // (a failure on an unhealthy link may be classified either way by the engine; what stays demanded is
+            // consistency: the engine does not stop when every link is healthy, nor when every failure it
+            // reports is - by its own report - recoverable)
+            let unhealthy = a.links.iter().any(|l| matches!(l, Some(TxMode::Unhealthy)));
+            let self_declared_recoverable = !rep.failed.is_empty() && rep.failed.iter().all(|f| !f.2);
+            if !link_gone && named.iter().all(|e| *e < self.n_ex) && (self_declared_recoverable || (rep.failed.is_empty() && !unhealthy)) {
                 bump(&self.cov.recoverable_only_ticks_checked);
-                out.push(("C03/recoverable-failure/tick-terminal".into(), format!("{ev:?}: every link is present (healthy / unhealthy) and every request names a known exchange, yet the audit carries {} unrecoverable error(s)", rep.audit_errors)));
+                out.push(("C03/recoverable-failure/tick-terminal".into(), format!("{ev:?}: no link is gone, every request names a known exchange and no failure is reported as unrecoverable, yet the audit carries {} unrecoverable error(s)", rep.audit_errors)));
             }
         } else if rep.failed.iter().any(|f| !f.2) {
             bump(&self.cov.recoverable_only_ticks_checked);
         }
 
-        // ---- trading state itself follows the update (needed to phrase R5/R6)
-        if let Ev::Trading(b) = ev {
+        // ---- trading state itself follows the update (needed to phrase R5/R6). Not judged on a terminal tick:
+        // an engine that is about to stop on an unrecoverable error may switch trading off by itself
+        if rep.audit_errors > 0 {
+        } else if let Ev::Trading(b) = ev {
             if post_enabled != *b {
                 out.push(("C03/trading-state/update-not-applied".into(), format!("TradingStateUpdate({b}) left trading enabled={post_enabled}")));
             }
@@ -1773,7 +1826,13 @@ impl M {
         // on it were issued "while disabled" (the mirror image of "re-enabling resumes generation on
         // that very event"), so it is judged like any other disabled tick, under its own signature.
         let disabling = !enabled_after && pre_enabled;
-        let must_gen: Option<bool> = if !enabled_after {
+        // ... unless the strategy was only consulted on a state in which trading was STILL enabled (an engine
+        // that lets the strategy act one last time before it applies the update issues nothing "while
+        // disabled"): then the statement is silent about this tick
+        let final_pass_while_enabled = disabling && !consulted.is_empty() && consulted.iter().all(|enabled| *enabled);
+        let must_gen: Option<bool> = if final_pass_while_enabled {
+            None
+        } else if !enabled_after {
             Some(false)
         } else if is_cmd || matches!(ev, Ev::Shutdown | Ev::AcctReconnecting(_) | Ev::MktReconnecting(_)) {
             // (a reconnect notice is not an "event" in the sense of R6: whether the strategy is consulted on
@@ -1807,8 +1866,11 @@ impl M {
                         }
                     }
                 }
-                if leak.is_none() && algo_reported {
-                    leak = Some(("reported", "audit carries algo order output".into()));
+                // (an algo output that only lists requests as REFUSED claims nothing was issued - an engine may
+                // report what the strategy would have done while disabled; R4 checks those were not delivered / marked)
+                let algo_issue_reported = rep.sent.iter().any(|(s, _)| *s == Src::Algo) || rep.failed.iter().any(|(s, _, _)| *s == Src::Algo);
+                if leak.is_none() && algo_issue_reported {
+                    leak = Some(("reported", "audit reports strategy requests as sent / failed".into()));
                 }
                 if let Some((what, d)) = leak {
                     let when = if disabling { "disabled/on-the-disabling-event" } else { "disabled" };
@@ -1829,7 +1891,11 @@ impl M {
                 let must_report = output_present || rep.audit_errors == 0;
                 // no trace of generation at all (nothing reported, nothing delivered, no error): one signature
                 let any_trace = algo_reported || rep.audit_errors > 0 || proposals.iter().any(|(r, _)| obs.n_total(r) > 0);
-                if !proposals.is_empty() && !any_trace {
+                // Generation is DEMANDED only on the enabling event ("re-enabling resumes generation on that very
+                // event"). On which other events an enabled engine consults its strategy is not fixed by the
+                // statement (it may skip a no-op trading update, balance snapshots, ...): there the rules below
+                // apply only if generation left a trace
+                if !proposals.is_empty() && !any_trace && enabling {
                     out.push((format!("{rule}/strategy-output-not-issued"), format!("event {ev:?} leaves trading enabled but the strategy's proposal {:?} was neither delivered, reported nor refused", proposals.iter().map(|p| &p.0).collect::<Vec<_>>())));
                 }
                 for (r, refused) in proposals.iter().filter(|_| any_trace) {
@@ -1872,7 +1938,12 @@ impl M {
             };
             // (an engine that consults the risk manager for commands would report through the output kind
             // that has `refused` lists)
-            let output_ok = rep.cmd_output == Some(want) || (rep.cmd_output == Some("GenerateAlgoOrders") && !rep.refused.is_empty());
+            // (... and next to an unrecoverable error the audit may carry the errors only - as the shipped engine
+            // does for a failed algo generation; then only link logs and state are judged)
+            let cmd_output_present = rep.cmd_output.is_some();
+            let output_ok = rep.cmd_output == Some(want)
+                || (rep.cmd_output == Some("GenerateAlgoOrders") && !rep.refused.is_empty())
+                || (!cmd_output_present && rep.audit_errors > 0);
             if !output_ok {
                 out.push((format!("{rule}/no-{want}-output"), format!("{ev:?}: audit carries command output {:?}", rep.cmd_output)));
             }
@@ -1884,44 +1955,34 @@ impl M {
                 _ if !output_ok => {}
                 Ev::CmdOpen(rs) => {
                     for r in rs.iter().map(|r| ExecutionRequest::Open(open_req(r))).filter(|r| !refused_ok(r)) {
-                        check_issued(&obs, &rep, &flagged, Src::Cmd, &r, &rule, true, out);
+                        check_issued(&obs, &rep, &flagged, Src::Cmd, &r, &rule, cmd_output_present, out);
                     }
                 }
                 Ev::CmdCancel(rs) => {
                     for r in rs.iter().map(|r| ExecutionRequest::Cancel(cancel_req(r))).filter(|r| !refused_ok(r)) {
-                        check_issued(&obs, &rep, &flagged, Src::Cmd, &r, &rule, true, out);
+                        check_issued(&obs, &rep, &flagged, Src::Cmd, &r, &rule, cmd_output_present, out);
                     }
                 }
-                Ev::CmdCancelOrders(f) => {
-                    // every not-yet-cancelling order in scope whose link is healthy gets its cancel (details: C19)
-                    for (ins, cid, o) in tracked(pre) {
-                        let ex = o.key.exchange.index();
-                        let live = !matches!(o.state, ActiveOrderState::CancelInFlight(_));
-                        if live && self.filt_matches(f, ins) && link_kind(&a.links, ex) == LinkKind::Healthy {
-                            let n = obs.logs[ex].iter().filter(|x| matches!(x, ExecutionRequest::Cancel(c) if c.key.cid.0.as_str() == cid && c.key.instrument.index() == ins)).count();
-                            let refused = rep.refused.iter().any(|x| matches!(x, ExecutionRequest::Cancel(c) if c.key.cid.0.as_str() == cid && c.key.instrument.index() == ins));
-                            // (the strategy may cancel the same order in the same tick: at least one)
-                            if n < 1 && !refused {
-                                out.push((format!("{rule}/cancel-orders-request-missing"), format!("{ev:?}: order {cid} on instrument {ins} got {n} cancel requests on its link")));
-                            }
-                        }
-                    }
-                }
-                Ev::CmdClose(f) => {
-                    // the cancels the strategy answered with are requests of the command: issued like those of
-                    // SendCancelRequests (healthy link => delivered once, in flight, reported; else failed)
+                Ev::CmdCancelOrders(_) | Ev::CmdClose(_) => {
+                    // the cancels the strategy answered a ClosePositions command with are requests of the command:
+                    // issued like those of SendCancelRequests (healthy link => delivered once, in flight, reported;
+                    // else failed)
                     for r in a.close_cancels.iter().map(|r| ExecutionRequest::Cancel(cancel_req(r))).filter(|r| !refused_ok(r)) {
-                        check_issued(&obs, &rep, &flagged, Src::Cmd, &r, &rule, true, out);
+                        check_issued(&obs, &rep, &flagged, Src::Cmd, &r, &rule, cmd_output_present, out);
                     }
-                    for (ins, (_, st)) in pre.instruments.0.iter().enumerate() {
-                        let ex = self.ex_of_ins(ins);
-                        if st.position.current.is_some() && st.data.price().is_some() && self.filt_matches(f, ins) && link_kind(&a.links, ex) == LinkKind::Healthy {
-                            let n = obs.logs[ex].iter().filter(|x| matches!(x, ExecutionRequest::Open(o) if o.key.instrument.index() == ins)).count();
-                            let refused = rep.refused.iter().any(|x| matches!(x, ExecutionRequest::Open(o) if o.key.instrument.index() == ins));
-                            // the strategy may open on the same instrument in the same tick: at least one
-                            if n < 1 && !refused {
-                                out.push((format!("{rule}/close-positions-request-missing"), format!("{ev:?}: instrument {ins} holds a position and a price but no open reached its link")));
-                            }
+                    // WHICH orders / positions a filter command covers is its own semantics (C19), not this
+                    // property's. "Still actions external commands" while disabled = the command does what it does
+                    // on an enabled engine: same deliveries, same orders afterwards (idle strategy, same links).
+                    if !pre_enabled && proposals.is_empty() {
+                        let mut pre_on = pre.clone();
+                        pre_on.trading = TradingState::Enabled;
+                        let (res_on, post_on, logs_on) = self.run_job(&pre_on, a, &Job::Process(event.clone()));
+                        let canon_logs = |logs: &Vec<Vec<ExecutionRequest>>| -> Vec<Vec<String>> {
+                            logs.iter().map(|l| { let mut v: Vec<String> = l.iter().map(|r| format!("{r:?}")).collect(); v.sort(); v }).collect()
+                        };
+                        if res_on.is_ok() && (canon_logs(&logs_on) != canon_logs(&obs.logs) || tracked(&post_on) != tracked(post)) {
+                            let what = if matches!(ev, Ev::CmdCancelOrders(_)) { "cancel-orders" } else { "close-positions" };
+                            out.push((format!("{rule}/{what}-differs-from-enabled-engine"), format!("{ev:?}: deliveries while disabled {:?}, on the same state with trading enabled {:?}", canon_logs(&obs.logs), canon_logs(&logs_on))));
                         }
                     }
                 }
@@ -2089,7 +2150,10 @@ pub fn run(ctx: &Ctx) -> Outcome {
         samples.extend(st.samples);
     }
     // non-vacuity: the interesting branches must have been exercised
-    for key in ["requests_reported_sent", "requests_reported_failed_fatal", "requests_reported_failed_recoverable", "requests_reported_refused",
+    // (`requests_reported_failed_recoverable` is not in this list: whether a send failure on a present link is
+    // reported as recoverable is the engine's choice - an engine that treats every send failure as fatal never
+    // produces one)
+    for key in ["requests_reported_sent", "requests_reported_failed_fatal", "requests_reported_refused",
         "disabled_ticks_with_strategy_proposal", "enabling_event_generations", "commands_while_disabled", "disabled_state_updates_changed_state",
         "real_channel_ticks", "probe_event_ticks", "disabled_probe_updates_changed_state", "close_positions_strategy_cancels_checked",
         "commands_under_refusing_risk_manager", "reopens_of_tracked_cid_reported_sent", "position_exit_ticks", "long_batch_ticks"] {
@@ -2128,8 +2192,9 @@ pub fn run(ctx: &Ctx) -> Outcome {
             "real-channel ticks (UnboundedTx) cover SendOpenRequests / SendCancelRequests commands, the enabling event and direct generate_algo_orders calls; that link type has no recoverable send error".into(),
             "a history ends at the first terminal tick (unrecoverable error or Shutdown)".into(),
             "the strategy never cancels the order that the same tick's order snapshot addresses (that outcome is C01's subject)".into(),
-            "whether algo generation runs after a command / Shutdown is not demanded (statement silent); the event that disables trading is judged as a disabled tick".into(),
-            "an error on a present-but-unhealthy link (recoverable send error) is required to be reported as recoverable (design reading of 'fatal if the link is gone or the exchange has no link')".into(),
+            "whether algo generation runs after a command / Shutdown / on enabled events other than the enabling one is not demanded (statement silent); the event that disables trading is judged as a disabled tick unless the strategy was consulted only while trading was still enabled".into(),
+            "the error class of a failure on a present (unhealthy or healthy) link is the engine's choice; only 'link gone / absent / unknown exchange => unrecoverable' is demanded".into(),
+            "CancelOrders / ClosePositions: scope semantics are C19's; while disabled the command must do what it does on the same state with trading enabled".into(),
         ],
     }
 }
